@@ -76,7 +76,7 @@ def register(PROPS):
                 "(FIN or RST, any offset incl. inside headers and inside an event) or ending the handler after the n-th Send; "
                 "non-trivial = at least one session resumed with a Last-Event-ID; distinct by case line. Plus, as premises of the "
                 "composition: Joe scenarios with resuming subscribers (judged on the C03/C04 predicates) and Put/Replay/GC/clock "
-                "histories of both real replayers (judged on what non-failing Replay calls send)",
+                "histories of both real replayers (judged on what non-failing Replay calls send); one scenario in five publishes events of about 4 KiB, one in seven builds its events by Clone + AppendData from a shared template, a quarter reconnect by calling Connect again (MaxRetries < 0), a third let OnSession name the topic",
         "hist": hist,
         "assumptions": [
             "net/http framing, chunking and request-context cancellation on write errors are observed, not modelled",
